@@ -240,6 +240,7 @@ type simConn struct {
 	isClosed bool
 	dl       chan struct{} // closed when a deadline in the past is set
 	dlOnce   sync.Once
+	wdl      time.Time // write deadline (zero = none); like a real socket it stays in force until it is changed
 	tag      string
 }
 
@@ -273,6 +274,12 @@ func (c *simConn) Read(p []byte) (int, error) {
 }
 
 func (c *simConn) Write(p []byte) (int, error) {
+	c.closedMu.Lock()
+	wdl := c.wdl
+	c.closedMu.Unlock()
+	if !wdl.IsZero() && !time.Now().Before(wdl) {
+		return 0, errors.New("simnet: write i/o timeout")
+	}
 	select {
 	case <-c.out.closed:
 		return 0, net.ErrClosed
@@ -315,13 +322,19 @@ func (c *simConn) wasClosed() bool {
 func (c *simConn) LocalAddr() net.Addr  { return c.la }
 func (c *simConn) RemoteAddr() net.Addr { return c.ra }
 func (c *simConn) SetDeadline(t time.Time) error {
+	_ = c.SetWriteDeadline(t)
 	if !t.IsZero() && !t.After(time.Now()) {
 		c.dlOnce.Do(func() { close(c.dl) })
 	}
 	return nil
 }
 func (c *simConn) SetReadDeadline(t time.Time) error  { return c.SetDeadline(t) }
-func (c *simConn) SetWriteDeadline(t time.Time) error { return nil }
+func (c *simConn) SetWriteDeadline(t time.Time) error {
+	c.closedMu.Lock()
+	c.wdl = t
+	c.closedMu.Unlock()
+	return nil
+}
 
 // dial connects la -> ra; returns the dialer's end. The listener's end is queued for Accept.
 func (n *simNet) dial(la, ra *net.TCPAddr, tagLocal, tagRemote string) (*simConn, *simConn, error) {
